@@ -53,7 +53,7 @@ def error_exit(b, bb, depth=0, seen=None):
     """every path from bb reaches the return without reading anything and with an Err result: the arm of a validity check
     (`match magic { MAGIC => .., _ => return Err(BadVersion) }`)"""
     seen = seen or set()
-    if depth > 8 or bb in seen:
+    if depth > 64 or bb in seen:
         return False
     seen = seen | {bb}
     t = b.term(bb)
